@@ -73,7 +73,8 @@ pub fn c03(p: &Params) {
     begin_execution();
     let mut lp = new_loop();
     let (ping, source) = make_ping().unwrap();
-    lp.handle()
+    let ping_tok = lp
+        .handle()
         .insert_source(source, |(), _, _| {
             log(Ev::Callback { src: "ping", payload: 0 });
         })
@@ -110,6 +111,20 @@ pub fn c03(p: &Params) {
         drop(ping);
     }
     let h = lp.handle();
+    if p.variant & 4 == 4 {
+        // the loop thread disables the source for a while: pings accumulate and must be
+        // delivered after enable()
+        let _ = lp.dispatch(Duration::ZERO, &mut Ctx);
+        log(Ev::OpBegin { th: 0, op: "disable", arg: 0 });
+        let _ = h.disable(&ping_tok);
+        sp();
+        shuttle::thread::yield_now();
+        let _ = lp.dispatch(Duration::ZERO, &mut Ctx);
+        shuttle::thread::yield_now();
+        log(Ev::OpBegin { th: 0, op: "enable", arg: 0 });
+        let _ = h.enable(&ping_tok);
+        sp();
+    }
     let finished = pump(&mut lp, &done, p.threads, &|| false);
     for j in joins {
         let _ = j.join();
@@ -117,6 +132,17 @@ pub fn c03(p: &Params) {
     let slots = h.verif_stats().occupied_slots;
     // ---- oracle over the history
     let evs = T.with(|t| t.borrow().events.clone());
+    // no callback while disabled
+    {
+        let dis = evs.iter().find(|(_, e)| matches!(e, Ev::OpBegin { op: "disable", .. })).map(|(s, _)| *s);
+        let en = evs.iter().find(|(_, e)| matches!(e, Ev::OpBegin { op: "enable", .. })).map(|(s, _)| *s);
+        if let (Some(d), Some(e)) = (dis, en) {
+            // the disable call itself is logged before it takes effect: skip the step after it
+            if evs.iter().any(|(s, ev)| *s > d + 1 && *s < e && matches!(ev, Ev::Callback { src: "ping", .. })) {
+                violate("ping.callback_while_disabled", &["C03", "C07"], vec![], "the ping callback ran between disable() and enable()".into());
+            }
+        }
+    }
     let mut cbs: Vec<u64> = Vec::new();
     let mut ping_writes: Vec<u64> = Vec::new();
     let mut pings: Vec<(u64, Option<u64>)> = Vec::new();
@@ -242,14 +268,40 @@ pub fn c04(p: &Params) {
     let done = Arc::new(AtomicU32::new(0));
     let mut rng = Rng::new(p.extra as u64 ^ 0xC04);
     let mut joins = Vec::new();
+    let handoff = p.variant & 1 == 1;
+    let total_threads = p.threads + if handoff { 1 } else { 0 };
     for i in 1..=p.threads {
         let t = tx.dup();
         let n = 1 + rng.below(p.ops as u64) as u32;
         let use_try = rng.chance(1, 3);
         let done = done.clone();
+        let spawn_child = handoff && i == 1;
+        let child_id = p.threads + 1;
         joins.push(shuttle::thread::spawn(move || {
             register_thread(i);
             sp();
+            if spawn_child {
+                // clone the sender and hand the clone to a new thread
+                let t2 = t.dup();
+                let done2 = done.clone();
+                shuttle::thread::spawn(move || {
+                    register_thread(child_id);
+                    sp();
+                    let v = ((child_id as u64) << 32) | 0;
+                    log(Ev::OpBegin { th: child_id, op: "send", arg: v });
+                    let ok = match &t2 {
+                        Tx::A(s) => s.send(v).is_ok(),
+                        Tx::S(s) => s.send(v).is_ok(),
+                    };
+                    log(Ev::OpEnd { th: child_id, op: "send", arg: v, ok });
+                    sp();
+                    log(Ev::OpBegin { th: child_id, op: "drop_sender", arg: 0 });
+                    drop(t2);
+                    log(Ev::OpEnd { th: child_id, op: "drop_sender", arg: 0, ok: true });
+                    done2.fetch_add(1, O::SeqCst);
+                });
+                sp();
+            }
             for k in 0..n {
                 let v = ((i as u64) << 32) | k as u64;
                 log(Ev::OpBegin { th: i, op: "send", arg: v });
@@ -296,11 +348,11 @@ pub fn c04(p: &Params) {
     log(Ev::OpEnd { th: 0, op: "drop_sender", arg: 0, ok: true });
     let h = lp.handle();
     let c3 = closed.clone();
-    let finished = pump(&mut lp, &done, p.threads, &move || c3.load(O::SeqCst) > 0 && false);
+    let finished = pump(&mut lp, &done, total_threads, &move || c3.load(O::SeqCst) > 0 && false);
     // a blocked sender can only be released by dropping the loop (and with it the receiver)
     let slots = h.verif_stats().occupied_slots;
     let evs = T.with(|t| t.borrow().events.clone());
-    let blocked = p.threads - done.load(O::SeqCst).min(p.threads);
+    let blocked = total_threads - done.load(O::SeqCst).min(total_threads);
     drop(h);
     drop(lp);
     for j in joins {
@@ -319,7 +371,7 @@ pub fn c04(p: &Params) {
             Ev::Callback { src: "closed", .. } => closed_at.push(*s),
             Ev::OpBegin { op: "drop_sender", .. } => {
                 drops += 1;
-                if drops == p.threads + 1 {
+                if drops == total_threads + 1 {
                     last_drop_begin = *s;
                 }
             }
